@@ -87,6 +87,13 @@ RULES = {
         "MemoryPool::allocate_memory registers every non-null pointer it returns with counter 1 before returning it.", 4),
     "C20.pool-finalize": (
         "MemoryPool::finalize terminates with an error exactly when the pool is non-empty; Runtime::finalize reaches it on every normal path.", 2),
+    "C20.share-postcondition": (
+        "a sharing operation (same-type convert / assign and everything built on them: at some normal exit *this holds counted "
+        "references to arrays copied from a parameter object, _foreign_memory == false) establishes that ownership on every normal "
+        "exit: a path that returns earlier (an 'already sharing' shortcut decided on sizes / pointer equality) must itself guarantee "
+        "_foreign_memory == false - pointer equality does not imply a held reference: a ranged view at offset 0 spanning its whole owner "
+        "has the same pointer and size without owning anything. Broken -> view.convert(owner) leaves the view un-counted; it dangles "
+        "when the owner is destroyed although convert() promises a co-owner.", 10),
     "C20.alias-stale-pointer": (
         "a member f(const T& x) of T may be called with x == *this unless it refuses that itself (a `this == &x` test): raw pointers "
         "fetched from x's arrays (x.val(), x.col_ind(), x.row_ptr(), x.elements(), ...) or x's array accessors must not be read on any "
@@ -650,6 +657,20 @@ def pool_rules(ck, facts, runtime_facts, extra_facts=()):
         ck.ob("C20.pool-allocate", tkey + "/registered-before-return", not bad,
               "returns at lines %s hand out a pointer that was not registered in the pool" % bad if bad else "every non-null return is preceded on all paths by the registration in _pool", fn.file, fn.line)
 
+    # ---- the chunk handed out covers the requested number of elements, in the arithmetic of the declared integer types
+    for fn in one("allocate_memory"):
+        res = alloc_bytes_table(fn)
+        tkey = "MemoryPool::allocate_memory"
+        if isinstance(res, str):
+            ck.incomplete("C20.pool-allocate", "%s: size arithmetic not evaluable (%s)" % (fn.full, res))
+            continue
+        bad = [(n_, b_, sz) for n_, b_, sz in res if b_ < n_ * sz]
+        ck.ob("C20.pool-allocate", tkey + "/bytes-cover-count", not bad,
+              "for count = %s the allocated chunk has at least count * sizeof(T) bytes (padding and byte count evaluated with the widths of the declared types)" % [r[0] for r in res] if not bad else
+              "for count = %d elements of %d bytes the allocation request is %d bytes (< %d): the padding / size arithmetic is not done in Index width "
+              "(e.g. a 32-bit literal under ~ or in a mask is zero-extended and clears the upper bits) - the container keeps its size while the array is shorter" % (
+                  bad[0][0], bad[0][2], bad[0][1], bad[0][0] * bad[0][2]), fn.file, fn.line)
+
     # ---- unknown addresses are refused
     for name in ("increase_memory", "release_memory", "allocated_size"):
         fs = [f for f in facts.functions if f.qn == "FEAT::MemoryPool::" + name]
@@ -792,6 +813,171 @@ def pool_rules(ck, facts, runtime_facts, extra_facts=()):
             ck.ob("C20.pool-finalize", "Runtime::finalize/calls-MemoryPool::finalize", ok,
                   "every normal path through Runtime::finalize calls MemoryPool::finalize" if ok else
                   "a normal exit of Runtime::finalize is reachable without MemoryPool::finalize (blocks %s)" % bad, fn.file, fn.line)
+
+
+def _int_type(t):
+    """(bits, signed) of a C++ integer type string on the LP64 target, None for anything else"""
+    t = re.sub(r"\bconst\b|\bvolatile\b", "", t or "").strip()
+    t = {"FEAT::Index": "unsigned long", "Index": "unsigned long", "std::size_t": "unsigned long", "size_t": "unsigned long",
+         "std::uint64_t": "unsigned long", "std::uint32_t": "unsigned int", "std::int64_t": "long", "std::int32_t": "int"}.get(t, t)
+    if t in ("bool",):
+        return 1, False
+    m = re.match(r"^(unsigned |signed )?(char|short|int|long long|long)?( int)?$", t)
+    if not m or not (m.group(1) or m.group(2)):
+        return None
+    bits = {"char": 8, "short": 16, "int": 32, "long": 64, "long long": 64, None: 32}[m.group(2)]
+    return bits, not (m.group(1) or "").startswith("unsigned")
+
+
+def _wrap(v, ty):
+    if ty is None or isinstance(v, bool):
+        return v
+    bits, signed = ty
+    if bits == 1:
+        return 1 if v else 0
+    v &= (1 << bits) - 1
+    if signed and v >= 1 << (bits - 1):
+        v -= 1 << bits
+    return v
+
+
+def alloc_bytes_table(fn):
+    """[(count, bytes requested from malloc, sizeof(T))] for sample counts incl. values beyond 2^32, evaluating the statements
+    of allocate_memory in order with every sub-expression wrapped to the width of its own declared type; or a string (why not)"""
+    if not fn.params:
+        return "no count parameter"
+    cd = fn.params[0]["d"]
+    samples = [1, 2, 3, 4, 5, 7, 8, 1023, (1 << 32) - 1, 1 << 32, (1 << 32) + 1, (1 << 33) + 5, (1 << 40) + 2]
+
+    class Found(Exception):
+        pass
+
+    def run_one(n0):
+        env = {cd: n0}
+        sizeofs = []
+
+        def ev(e):
+            e0 = e
+            e = L.unwrap(e)
+            k = e.get("k")
+            ty = _int_type(fn.ntype(e)) if e.get("t") is not None else None
+            if k == "Int":
+                return _wrap(int(e["v"]), ty)
+            if k == "Bool":
+                return 1 if e["v"] else 0
+            if k == "SizeOf" and e.get("v") is not None:
+                sizeofs.append(int(e["v"]))
+                return int(e["v"])
+            if k in ("Construct", "TempObj") and len(e.get("a", [])) == 1:
+                return _wrap(ev(e["a"][0]), ty)
+            if k == "Ref":
+                if e.get("d") in env:
+                    return env[e["d"]]
+                if e.get("v") is not None:
+                    return int(e["v"])
+                raise NoEval(render(e))
+            if k == "Un" and e.get("op") in ("~", "-", "!", "+"):
+                v = ev(e["e"])
+                return _wrap({"~": ~v, "-": -v, "!": int(not v), "+": v}[e["op"]], ty)
+            if k == "Cond":
+                return ev(e["then"]) if ev(e["c"]) else ev(e["else"])
+            if k == "Bin":
+                op = e["op"]
+                if op == "&&":
+                    return int(bool(ev(e["lhs"])) and bool(ev(e["rhs"])))
+                if op == "||":
+                    return int(bool(ev(e["lhs"])) or bool(ev(e["rhs"])))
+                a, b = ev(e["lhs"]), ev(e["rhs"])
+                # the operands are converted to the type of the operation: an unsigned result type reinterprets negative values
+                if ty is not None and not ty[1]:
+                    a, b = _wrap(a, ty), _wrap(b, ty)
+                if op in ("/", "%") and b == 0:
+                    raise NoEval("division by zero")
+                tab = {"+": lambda: a + b, "-": lambda: a - b, "*": lambda: a * b, "/": lambda: abs(a) // abs(b) * (1 if (a < 0) == (b < 0) else -1),
+                       "%": lambda: a - b * (abs(a) // abs(b) * (1 if (a < 0) == (b < 0) else -1)), "&": lambda: a & b, "|": lambda: a | b, "^": lambda: a ^ b,
+                       "<<": lambda: a << b, ">>": lambda: a >> b, "==": lambda: int(a == b), "!=": lambda: int(a != b), "<": lambda: int(a < b),
+                       "<=": lambda: int(a <= b), ">": lambda: int(a > b), ">=": lambda: int(a >= b)}
+                if op not in tab:
+                    raise NoEval(op)
+                if op in ("==", "!=", "<", "<=", ">", ">="):
+                    # comparison in the common type of the operands
+                    lt, rt = _int_type(fn.ntype(L.unwrap(e["lhs"]))), _int_type(fn.ntype(L.unwrap(e["rhs"])))
+                    ct = max([x for x in (lt, rt) if x], key=lambda x: (x[0], not x[1]), default=None)
+                    if ct is not None and not ct[1]:
+                        a, b = _wrap(a, ct), _wrap(b, ct)
+                return _wrap(tab[op](), ty)
+            raise NoEval(render(e)[:40])
+
+        def scan_alloc(expr):
+            for x in walk(expr):
+                if x.get("k") == "Call" and re.search(r"(^|::)(malloc|cuda_malloc_managed|aligned_alloc|calloc)$", str(x.get("callee", ""))) and x.get("a"):
+                    raise Found(ev(x["a"][-1]) if not str(x.get("callee", "")).endswith("calloc") else ev(x["a"][0]) * ev(x["a"][1]))
+
+        def run(n):
+            if n is None:
+                return True
+            k = n.get("k")
+            if k == "Block":
+                for s_ in n.get("s", []):
+                    if not run(s_):
+                        return False
+                return True
+            if k == "Decl":
+                for v in n.get("vars", []):
+                    if v.get("init") is not None:
+                        scan_alloc(v["init"])
+                        ty = _int_type(fn.type(v.get("t")))
+                        if ty is not None:
+                            env[v["d"]] = _wrap(ev(v["init"]), ty)
+                return True
+            if k == "If":
+                return run(n["then"]) if ev(n["c"]) else (run(n["else"]) if n.get("else") is not None else True)
+            if k == "Return":
+                return False
+            if k == "Assign":
+                scan_alloc(n["rhs"])
+                lhs = L.unwrap(n["lhs"])
+                if lhs.get("k") == "Ref" and (lhs.get("d") in env or _int_type(fn.ntype(lhs)) is not None):
+                    ty = _int_type(fn.ntype(lhs))
+                    if ty is None:
+                        return True
+                    v = ev(n["rhs"])
+                    op = n.get("op")
+                    if op != "=":
+                        cur = env[lhs["d"]]
+                        v = {"+=": cur + v, "-=": cur - v, "*=": cur * v, "&=": cur & v, "|=": cur | v, "<<=": cur << v, ">>=": cur >> v}.get(op)
+                        if v is None:
+                            raise NoEval(op)
+                    env[lhs["d"]] = _wrap(v, ty)
+                return True
+            if k == "Un" and n.get("op") in ("++", "--") and L.unwrap(n["e"]).get("d") in env:
+                d = L.unwrap(n["e"])["d"]
+                env[d] = _wrap(env[d] + (1 if n["op"] == "++" else -1), _int_type(fn.ntype(L.unwrap(n["e"]))))
+                return True
+            if is_call(n):
+                scan_alloc(n)
+                return not n.get("noreturn")
+            if k in ("For", "While", "Do", "Switch"):
+                raise NoEval("loop / switch in the size arithmetic")
+            return True
+        try:
+            run(fn.body)
+        except Found as f:
+            return f.args[0], (sizeofs[-1] if sizeofs else None)
+        return None, None
+
+    out = []
+    try:
+        for n0 in samples:
+            b, sz = run_one(n0)
+            if b is None:
+                return "no malloc-like call reached for count = %d" % n0
+            if sz is None:
+                return "no sizeof in the byte count"
+            out.append((n0, b, sz))
+    except (NoEval, KeyError, TypeError) as e:
+        return str(e)
+    return out
 
 
 def finalize_status_form(fn, ifs):
@@ -1126,7 +1312,9 @@ def container_rules(ck, fam, prefix="C20."):
         if L.is_inlined_helper(fam, fn):
             continue
         cases = L.interpret_cases(fam, fn, summaries)
-        if not any(it.touched or it.unknown for _, it in cases):
+        shares = any(st.get(("flag", "this")) == "F" and any(isinstance(st.get(("this", kd)), L.VS) and "counted" in st[("this", kd)].origin for kd in ("elements", "indices"))
+                     for _, it in cases for st, _l in it.exits) and any(len(it.exits) > 1 for _, it in cases)
+        if not any(it.touched or it.unknown for _, it in cases) and not shares:
             continue
         nfun += 1
         key = L.fkey(fn)
@@ -1141,6 +1329,24 @@ def container_rules(ck, fam, prefix="C20."):
                     det = "[%s] %s" % (label, det)
                 if k not in merged or (merged[k][0] and not ok):
                     merged[k] = (ok, det)
+        # ownership postcondition: if some exit shares arrays of a parameter (counted, flag false), every exit must own
+        for label, it in cases:
+            if it.unknown or len(it.exits) < 1 or fn.d.get("ctor") or fn.d.get("dtor"):
+                continue
+            sharing = [(st, line) for st, line in it.exits if st.get(("flag", "this")) == "F" and any(
+                isinstance(st.get(("this", kd)), L.VS) and st[("this", kd)].own == "OWN" and "counted" in st[("this", kd)].origin
+                and any(o_.startswith("copy:") for o_ in st[("this", kd)].origin) for kd in ("elements", "indices"))]
+            if not sharing:
+                continue
+            others = [(st, line) for st, line in it.exits if st.get(("flag", "this")) != "F"]
+            okp = not others
+            detp = "all %d normal exits leave *this owning its arrays (_foreign_memory == false)" % len(it.exits) if okp else (
+                "%sthe exit at line %s shares the arrays of a parameter and takes references, but the exit at line %s returns with _foreign_memory %s and the arrays *this had on entry: "
+                "if *this was a ranged view (same pointer and size as its owner, no reference held) it still is one - the early return must be conditioned on !_foreign_memory" % (
+                    "[%s] " % label if label else "", sharing[0][1], others[0][1], "unchanged (possibly true)" if isinstance(others[0][0].get(("flag", "this")), tuple) else others[0][0].get(("flag", "this"))))
+            kp = ("share-postcondition", "this", sharing[0][1])
+            if kp not in merged or (merged[kp][0] and not okp):
+                merged[kp] = (okp, detp)
         for (r, sub, line), (ok, det) in merged.items():
             if not ok:
                 # the same source-level instance seen through several template instantiations: report once
